@@ -202,7 +202,14 @@ func checkC11(c *Ctx) {
 			return true
 		}
 		for _, side := range [][2]ast.Expr{{b.X, b.Y}, {b.Y, b.X}} {
-			ix, ok := unparen(side[0]).(*ast.IndexExpr)
+			hv := unparen(side[0])
+			// the header value may be trimmed before the comparison: strings.TrimSpace(node.Headers["tracking"])
+			if tc, isCall := hv.(*ast.CallExpr); isCall && len(tc.Args) == 1 {
+				if callee := calleeOf(info, tc); callee != nil && funcFullName(callee) == "strings.TrimSpace" {
+					hv = unparen(tc.Args[0])
+				}
+			}
+			ix, ok := hv.(*ast.IndexExpr)
 			if !ok {
 				continue
 			}
